@@ -183,3 +183,76 @@ def check_bookkeeping(summ, metrics):
         if float(summ["sq_dsc"]) < float(summ["sq"]) - 1e-12:
             f.append(f"sq_dsc {summ['sq_dsc']} < sq {summ['sq']}")
     return f
+
+
+# ----------------------------------------------------------------------------------------------------------------
+# the selection of instance metrics must not influence any individual metric
+# ----------------------------------------------------------------------------------------------------------------
+def selection_variants(rng, base, allow_cldsc):
+    """metric lists that contain every metric of `base`: duplicates (adjacent, separated, before/after ASSD),
+    clDSC inserted first / in the middle / last, reorderings"""
+    out = []
+    b = list(base)
+    for _ in range(3):
+        v = list(b)
+        rng.shuffle(v)
+        k = rng.random()
+        if k < 0.45:
+            d = rng.choice(v)
+            v.insert(rng.randint(0, len(v)), d)            # one metric named twice
+            if rng.random() < 0.4:
+                v.insert(rng.randint(0, len(v)), rng.choice(v))
+        elif k < 0.8 and allow_cldsc:
+            v.insert(rng.choice([0, 0, len(v) // 2, len(v)]), "clDSC")
+        out.append(v)
+    if allow_cldsc:
+        out.append(["clDSC"] + b)
+    out.append([b[0]] + b)                                  # the first metric twice, in front
+    return out
+
+
+def _same(a, b):
+    if isinstance(a, str) or isinstance(b, str):
+        return a == b
+    if isinstance(a, (list, tuple)):
+        return isinstance(b, (list, tuple)) and len(a) == len(b) and all(_same(x, y) for x, y in zip(a, b))
+    if a is None or b is None:
+        return a is b
+    try:
+        fa, fb = float(a), float(b)
+    except (TypeError, ValueError):
+        return a == b
+    return (math.isnan(fa) and math.isnan(fb)) or fa == fb
+
+
+def selection_failures(cfg, pred, ref, variants, groups=None):
+    """runs the evaluator with cfg and with each variant metric list; returns (invariance failures, bookkeeping
+    failures, number of variants that ran).  A variant that raises is skipped when the base also raises with it
+    on its own (e.g. centre-line Dice on 2-D crops)"""
+    base = run_impl(cfg, pred, ref, groups=groups)
+    inv, book, ran = [], [], 0
+    if isinstance(base, str):
+        return inv, book, ran
+    for v in variants:
+        c2 = dict(cfg)
+        c2["eval_metrics"] = list(v)
+        res = run_impl(c2, pred, ref, groups=groups)
+        if isinstance(res, str):
+            if "clDSC" in v:
+                continue                                   # skeletonisation may reject the crop: not our property
+            inv.append(f"metric list {v}: evaluation raised {res}, while {cfg['eval_metrics']} evaluates")
+            continue
+        ran += 1
+        for g, s in base.items():
+            t = res.get(g)
+            if t is None:
+                inv.append(f"metric list {v}: group {g} missing")
+                continue
+            for k, val in s.items():
+                if k in t and not _same(val, t[k]):
+                    inv.append(f"metric list {v}: {g}.{k} = {t[k]!r}, but {val!r} when only {cfg['eval_metrics']} are requested")
+            for m in dict.fromkeys(v):
+                lst = t.get("list_" + m)
+                if isinstance(lst, list) and isinstance(t.get("tp"), int) and len(lst) != t["tp"]:
+                    book.append(f"metric list {v}: {g}: list of {m} has {len(lst)} entries but tp = {t['tp']}")
+    return inv, book, ran
